@@ -34,6 +34,12 @@
         proof fn law_eq_trans(&self, b: &Self, c: &Self)
             requires self.wf(), b.wf(), c.wf(), self.eq_spec(b), b.eq_spec(c),
             ensures self.eq_spec(c);
+
+        /// merging in an equal value changes nothing (up to `==`): what the "same value - extend"
+        /// fast path of `insert_with` relies on
+        proof fn law_merge_idem(&self, b: &Self)
+            requires self.wf(), b.wf(), self.eq_spec(b),
+            ensures self.eq_spec(&self.merge_spec(b));
     }
 
     /// A3: `Clone` of a `Merge` value (and of a `(Range<u32>, T)` entry, whose Clone is std's tuple impl)
@@ -52,4 +58,11 @@
             <() as PartialEqSpec>::obeys_eq_spec(),
             forall|a: (), b: ()| #[trigger] a.eq_spec(&b);
 
-    pub broadcast group vx_clone_axioms { axiom_clone_merge, axiom_clone_entry }
+    /// A2: an allocation is at most isize::MAX bytes and a `(Range<u32>, T)` entry takes at least 8, so a
+    /// vector of entries has at most isize::MAX / 8 elements (used only for the `a.len() + b.len()`
+    /// capacity hint of `merge`).
+    pub axiom fn axiom_vec_len_bound<T>(v: &Vec<(Range<u32>, T)>)
+        ensures
+            v@.len() <= 0x0fff_ffff_ffff_ffff;
+
+    pub broadcast group vx_clone_axioms { axiom_clone_merge, axiom_clone_entry, axiom_range_u32_is_empty }
